@@ -19,6 +19,45 @@ class AnchorVanished(AnalysisError):
     pass
 
 
+def _repair_line_order(tree):
+    """Statements that were inlined from a helper keep the helper's line numbers; rules (and readers) order statements by line.  Every
+    statement of a function whose line lies outside the function's own line range is moved to just after the statement before it (a
+    fraction of a line, so that the reported line is still the call site's), with everything inside it shifted by the same amount."""
+    for f in [n for n in ast.walk(tree) if isinstance(n, (ast.FunctionDef, ast.AsyncFunctionDef))]:
+        lo, hi = getattr(f, 'lineno', None), getattr(f, 'end_lineno', None)
+        if lo is None or hi is None:
+            continue
+        prev = [float(lo)]
+
+        def rec(stmts):
+            for s_ in stmts:
+                if isinstance(s_, (ast.FunctionDef, ast.AsyncFunctionDef, ast.ClassDef)):
+                    continue
+                ln = getattr(s_, 'lineno', None)
+                if ln is None:
+                    continue
+                if not (lo <= ln <= hi) or ln < prev[0] - 0.5:
+                    new = prev[0] + 0.001
+                    delta = new - ln
+                    for n_ in ast.walk(s_):
+                        if hasattr(n_, 'lineno') and n_.lineno is not None:
+                            n_.lineno = n_.lineno + delta
+                        if getattr(n_, 'end_lineno', None) is not None:
+                            n_.end_lineno = n_.end_lineno + delta
+                    prev[0] = max(prev[0], max((getattr(n_, 'lineno', 0) or 0) for n_ in ast.walk(s_)))
+                    continue
+                prev[0] = max(prev[0], float(ln))
+                for fld in ('body', 'orelse', 'finalbody'):
+                    b_ = getattr(s_, fld, None)
+                    if isinstance(b_, list) and b_ and isinstance(b_[0], ast.stmt):
+                        rec(b_)
+                if isinstance(s_, ast.Try):
+                    for h in s_.handlers:
+                        rec(h.body)
+                prev[0] = max(prev[0], float(getattr(s_, 'end_lineno', ln) or ln)) if lo <= (getattr(s_, 'end_lineno', ln) or ln) <= hi else prev[0]
+        rec(f.body)
+
+
 def repo_root():
     return os.environ.get('SCMO_REPO', '/repo')
 
@@ -66,6 +105,8 @@ class Module:
             from .normalize import flatten_starred_displays
             self.norm_counts['starred_flattened'] = flatten_starred_displays(self.tree)
             ast.fix_missing_locations(self.tree)
+            if self.inlined or self.grafted:
+                _repair_line_order(self.tree)
         self.lines = source.splitlines()
         self._defs = None
         # parent links and qualnames
@@ -116,6 +157,16 @@ class Module:
                                 if isinstance(ch2, ast.FunctionDef) and ch2.name in used and ch2.name not in have and ch2.name != al.name:
                                     self.tree.body.append(copy.deepcopy(ch2))
                                     have.add(ch2.name)
+                            # ... and so do the module-level names it reads in its new home (tables, constants), unless this module
+                            # binds the name itself
+                            bound_here = {t.id for n in self.tree.body if isinstance(n, ast.Assign) for t in n.targets if isinstance(t, ast.Name)} | have | \
+                                {(a_.asname or a_.name).split('.')[0] for n in self.tree.body if isinstance(n, (ast.Import, ast.ImportFrom)) for a_ in n.names}
+                            for ch2 in other.body:
+                                if isinstance(ch2, ast.Assign) and len(ch2.targets) == 1 and isinstance(ch2.targets[0], ast.Name) and ch2.targets[0].id in used \
+                                        and ch2.targets[0].id not in bound_here:
+                                    # placed in front of the functions so that module-constant propagation sees a plain module constant
+                                    self.tree.body.insert(0, copy.deepcopy(ch2))
+                                    bound_here.add(ch2.targets[0].id)
                             out.append((name, rp))
                             missing.discard(name)
                             break
@@ -292,7 +343,7 @@ class RepoIndex:
 
     def site(self, relpath, node):
         m = self.module(relpath)
-        return f'{relpath}:{getattr(node, "lineno", 0)} {m.enclosing_qualname(node)}'
+        return f'{relpath}:{int(getattr(node, "lineno", 0) or 0)} {m.enclosing_qualname(node)}'
 
     def construct(self, relpath, node, rule):
         """Line-independent key of a construct: module:function:rule:normalised statement digest."""
